@@ -83,7 +83,7 @@ func init() {
 	// ------------------------------------------------------------------ C08.R3
 	register("C08", "R3", "K11", "proposer-priority arithmetic has the specified shapes (clipped add/sub, ceil-division rescale, -1.125*total for new validators)", 6, func(c *Ctx) {
 		w := c.W
-		idx := `\(phi\(\(phi:rangeindex \+ 1\)\|-1\) \+ 1\)`
+		idx := fwdIdx
 		v := `\w+\.Validators\[` + idx + `\]`
 		allowed := []struct{ name, re string }{
 			{"increment by voting power (clipped)", `^types\.safeAddClip\(` + v + `\.ProposerPriority, ` + v + `\.VotingPower\)$`},
